@@ -25,17 +25,18 @@ import (
 // overlapping DAGs; differential oracle vs. each request run alone.
 
 type c20Case struct {
-	Pair       string `json:"pair"` // same | sub | diamond | sibling
-	Sel        string `json:"selector"`
-	WQ, WR     int    `json:"-"`
-	Workers    [2]int `json:"workers"`    // requestor's outgoing / responder's incoming maximum
-	Keys       string `json:"dedup_keys"` // none | same | different
-	N          int    `json:"requests"`
-	Gated      bool   `json:"event_level"`
-	PauseFirst bool   `json:"first_request_paused_by_block_hook,omitempty"` // the first request pauses itself at its first block and is never resumed
-	HoldFirst  bool   `json:"responders_first_send_stalls,omitempty"`       // the responder\'s first message stalls until all responses are queued behind it (they travel batched)
-	RespExt    bool   `json:"responder_hook_sends_extension,omitempty"`     // the responder's request hook sends extension data, so a request's first response may carry no link metadata
-	Tight      bool   `json:"responder_allowance_two_blocks,omitempty"`     // with HoldFirst: the responder may hold two blocks in memory per peer, so the first response stops early behind the stalled send and the others overlap with it
+	Pair        string `json:"pair"` // same | sub | diamond | sibling
+	Sel         string `json:"selector"`
+	WQ, WR      int    `json:"-"`
+	Workers     [2]int `json:"workers"`    // requestor's outgoing / responder's incoming maximum
+	Keys        string `json:"dedup_keys"` // none | same | different
+	N           int    `json:"requests"`
+	Gated       bool   `json:"event_level"`
+	PauseFirst  bool   `json:"first_request_paused_by_block_hook,omitempty"`    // the first request pauses itself at its first block and is never resumed
+	HoldFirst   bool   `json:"responders_first_send_stalls,omitempty"`          // the responder\'s first message stalls until all responses are queued behind it (they travel batched)
+	CancelFirst bool   `json:"first_request_cancelled_by_its_caller,omitempty"` // with HoldFirst: once the batched responses have arrived and the first request is stuck in its slow hook, its caller cancels it; the others go on
+	RespExt     bool   `json:"responder_hook_sends_extension,omitempty"`        // the responder's request hook sends extension data, so a request's first response may carry no link metadata
+	Tight       bool   `json:"responder_allowance_two_blocks,omitempty"`        // with HoldFirst: the responder may hold two blocks in memory per peer, so the first response stops early behind the stalled send and the others overlap with it
 }
 
 func (c c20Case) String() string {
@@ -51,6 +52,9 @@ func (c c20Case) String() string {
 	}
 	if c.RespExt {
 		p += "; the responder's request hook sends extension data"
+	}
+	if c.CancelFirst {
+		p += "; the first request is cancelled by its caller while it is behind"
 	}
 	return fmt.Sprintf("%d requests (%s) selector %s workers Q=%d R=%d dedup keys %s%s", c.N, c.Pair, c.Sel, c.Workers[0], c.Workers[1], c.Keys, p)
 }
@@ -183,6 +187,13 @@ func c20Run(cfg vsched.Config, cs c20Case, only int) (*c20Obs, *vsched.Sched) {
 			vsched.Quiesce()
 			if cs.Gated {
 				o.events += len(harness.RunEvents(f.Deliveries(q.ID, r.ID), 400))
+			}
+			if cs.CancelFirst && only < 0 {
+				res[0].Cancel()
+				vsched.Quiesce()
+				if cs.Gated {
+					o.events += len(harness.RunEvents(f.Deliveries(q.ID, r.ID), 400))
+				}
 			}
 			close(gate)
 			vsched.Quiesce()
@@ -334,8 +345,8 @@ func c20Judge(cs c20Case, o *c20Obs) *core.Violation {
 		for _, k := range strings.Split(solo.store, ",") {
 			union[k] = true
 		}
-		if cs.PauseFirst && i == 0 {
-			continue // paused for good: only the others are judged
+		if (cs.PauseFirst || cs.CancelFirst) && i == 0 {
+			continue // paused for good / cancelled: only the others are judged
 		}
 		got, want := o.reqs[i], solo.reqs[0]
 		name := fmt.Sprintf("request %d of %d", i+1, cs.N)
@@ -375,7 +386,7 @@ func c20Judge(cs c20Case, o *c20Obs) *core.Violation {
 		}
 	}
 	sort.Strings(uk)
-	if strings.Join(uk, ",") != o.store && !cs.PauseFirst {
+	if strings.Join(uk, ",") != o.store && !cs.PauseFirst && !cs.CancelFirst {
 		return v("stored-blocks-differ-from-solo-runs", fmt.Sprintf("the requestor stored %d blocks, the solo runs together %d", len(strings.Split(o.store, ",")), len(uk)))
 	}
 	return nil
@@ -402,6 +413,9 @@ func c20Cases(thorough bool) []c20Case {
 							out = append(out, c20Case{Pair: pair, Sel: sn, Workers: w, Keys: keys, N: n, HoldFirst: true, Tight: true})
 							if keys == "none" && (thorough || n == 2) {
 								out = append(out, c20Case{Pair: pair, Sel: sn, Workers: w, Keys: keys, N: n, HoldFirst: true, RespExt: true})
+							}
+							if keys != "different" && (thorough || n == 2) {
+								out = append(out, c20Case{Pair: pair, Sel: sn, Workers: w, Keys: keys, N: n, HoldFirst: true, CancelFirst: true})
 							}
 						}
 					}
